@@ -134,7 +134,6 @@ fn check<C: Cm>(case: &Case) -> PResult {
                     Err(e) => fail!(format!("rejects_valid/{n}"), "{name} rejected valid input {:?}: {e:?}", String::from_utf8_lossy(&bytes)),
                 };
                 check_content(&sy, s, codes, &format!("parsed/{n}")).map_err(|f| Fail { site: f.site, msg: format!("{name} on {:?}: {}", String::from_utf8_lossy(&bytes), f.msg) })?;
-                check_image(s, codes, &format!("parsed/{n}"))?;
             }
             let s = results[0].1.as_ref().unwrap();
             // display forms agree
@@ -153,7 +152,6 @@ fn check<C: Cm>(case: &Case) -> PResult {
             let syms = sy.vec(codes);
             let collected: Seq<C> = syms.iter().copied().collect();
             check_symbols(&sy, &collected, codes, &format!("collect/{n}"))?;
-            check_image(&collected, codes, &format!("collect/{n}"))?;
             ensure!(&collected == s, format!("collect/{n}"), "collect() != parsed for {text:?}");
             let fv = Seq::<C>::from(&syms);
             check_symbols(&sy, &fv, codes, &format!("from_vec/{n}"))?;
@@ -163,13 +161,11 @@ fn check<C: Cm>(case: &Case) -> PResult {
             let mut ext2 = Seq::<C>::with_capacity(3);
             ext2.extend(syms.iter().copied());
             check_symbols(&sy, &ext2, codes, &format!("extend/{n}"))?;
-            check_image(&ext2, codes, &format!("extend/{n}"))?;
             let mut pushed = Seq::<C>::default();
             for x in &syms {
                 pushed.push(*x);
             }
             check_symbols(&sy, &pushed, codes, &format!("push/{n}"))?;
-            check_same_hash(s, &collected, &format!("hash/{n}"), "parsed vs collected")?;
             let distinct = {
                 let mut d = codes.clone();
                 d.sort();
